@@ -254,6 +254,8 @@ func specMarkedAbandoned(p *chunkPayloadData) bool {
 //@   ensures#fits-the-16-bit-chunk-length{C12} 16+4*len(result.gapAckBlocks)+4*len(result.duplicateTSN) <= 65535
 
 //@ func Association.getDataPacketsToRetransmit
+//@   at store chunkPayloadData.nSent assert#retransmission-within-the-windows-or-a-single-probe{C10}
+//@      awnd == min32(old(a.CWND()), old(a.RWND())) && ((i == 0 && int(a.RWND()) < len(chunkPayload.userData)) || bytesToSend <= int(awnd))
 //@   at store chunkPayloadData.nSent assert#abandoned-messages-are-not-retransmitted{C06} !specMarkedAbandoned(chunkPayload)
 
 //@ func Association.onRackAfterSACK
